@@ -191,6 +191,15 @@ func c20Inputs(loader string, r *rand.Rand, n int) [][]byte {
 		case k <= 4 && loader == "grb" && len(grbOffs) > 0 && len(grbStream) <= maxLen:
 			b := append([]byte(nil), grbStream...)
 			off := grbOffs[r.Intn(len(grbOffs))]
+			if r.Intn(2) == 0 {
+				// the header fields (name / version lengths, node count) and the counts of the
+				// working-memory tables sit at the beginning and at the end of the stream
+				k := r.Intn(min(12, len(grbOffs)))
+				if r.Intn(3) == 0 {
+					k = len(grbOffs) - 1 - r.Intn(min(40, len(grbOffs)))
+				}
+				off = grbOffs[k]
+			}
 			cur := binary.LittleEndian.Uint64(b[off:])
 			v := grbLengths[r.Intn(len(grbLengths))]
 			switch r.Intn(4) {
@@ -401,7 +410,7 @@ func (c *CaseResult) setCounter(k string, v int) {
 func init() {
 	register(&Check{
 		ID: "C20", Level: "exploration",
-		Rule: "four loaders (BuildRuleFromResource, JSONResource.Load + builder, DataContext.AddJSON, LoadKnowledgeBaseFromReader), batches of 200 inputs per sandboxed child process (RLIMIT_AS 4 GiB, BEGIN/END progress log, in-child CPU watchdog): random bytes, valid seeds, and structure-aware mutants of valid GRL / JSON-rule / JSON-fact / GRB seeds (bit flips, byte edits, truncation, splicing, duplication, dictionary tokens, boundary numbers, deep nesting up to 64 levels for rules and 2000 for JSON facts; for GRB every kind of edit of the 8-byte length / count fields to 0, 1, len+-1, 2^16, 2^20, 2^31, 2^32, 2^40, 2^62, 2^63, 2^64-1); size bound 4 KiB (GRL, JSON rules) / 64 KiB (JSON facts, GRB); verdicts: panic escaping the API, death of the process, CPU time above T(n) = 30 s + 2 us * n^2, memory obtained from the OS above M(n) = 96 MiB + 256 * n; non-trivial = distinct inputs that get past the loader's first syntactic check",
+		Rule: "four loaders (BuildRuleFromResource, JSONResource.Load + builder, DataContext.AddJSON, LoadKnowledgeBaseFromReader), batches of 200 inputs per sandboxed child process (RLIMIT_AS 4 GiB, BEGIN/END progress log, in-child CPU watchdog): random bytes, valid seeds, and structure-aware mutants of valid GRL / JSON-rule / JSON-fact / GRB seeds (bit flips, byte edits, truncation, splicing, duplication, dictionary tokens, boundary numbers, deep nesting up to 64 levels for rules and 2000 for JSON facts; for GRB every kind of edit of the 8-byte length / count fields to 0, 1, len+-1, 2^16, 2^20, 2^31, 2^32, 2^40, 2^62, 2^63, 2^64-1); size bound 4 KiB (GRL, JSON rules) / 64 KiB (JSON facts, GRB); verdicts: panic escaping the API, death of the process, CPU time above T(n) = 30 s + 2 us * n^2, memory obtained from the OS above M(n) = 512 MiB + 256 * n; non-trivial = distinct inputs that get past the loader's first syntactic check",
 		Assume: []string{"budgets T(n), M(n) are fixed (>=10x the worst case measured on the unchanged tree, recorded as max_cpu_ms_* / max_sys_growth_kib_* in the evidence)", "wall-clock watchdog (15 min per batch) only yields inconclusive"},
 		Cases:  tierN(40, 4000),
 		Run:    runC20Case,
